@@ -375,24 +375,36 @@ func (g *hgen) random() (hscen, string) {
 			add("i1", "e1l")
 			spec = "long"
 		}
-		ctxName := []string{"1", "d1"}[g.r.Intn(2)]
-		// iterator 0 always runs with a live context first (the statement gets prepared)
+		// iterator 0 always runs with a live context first (so the statement is prepared before any fetch with a
+		// dead context: a PREPARE under a dead context would race with the caller's error)
 		add("w2", "I", fmt.Sprintf("S0.%d", g.partial(h.scripts[cur])))
 		ni := 1
-		switch g.r.Intn(3) {
-		case 0:
-			add("I1")
-		case 1:
-			add("w"+ctxName, "I")
-		case 2:
-			add("w"+ctxName, "I", "w0")
-			if h.kind != "q" {
-				cur2 := key()
-				add(fmt.Sprintf("b%d", cur2))
+		start := func() {
+			switch g.r.Intn(6) {
+			case 0:
+				add("I1") // a temporary copy: the object keeps its context
+			case 1:
+				add("w1", "I")
+			case 2:
+				add("wd1", "I")
+			case 3:
+				add("w1", "I", "w0")
+			case 4:
+				add("I2")
+			case 5:
+				add("w0", "I")
+			}
+			ni++
+		}
+		start()
+		if g.r.Intn(3) == 0 {
+			start()
+		}
+		for i := 1; i < ni; i++ {
+			if g.r.Intn(3) > 0 {
+				add(fmt.Sprintf("S%d.%d", i, g.partial(h.scripts[cur])))
 			}
 		}
-		ni++
-		add(fmt.Sprintf("S1.%d", g.partial(h.scripts[cur])))
 		switch g.r.Intn(4) {
 		case 0:
 			add("x2")
@@ -401,15 +413,20 @@ func (g *hgen) random() (hscen, string) {
 		default:
 			add("x1")
 		}
-		if g.r.Intn(3) == 0 {
-			// an iterator started with an already cancelled context
-			add("I1")
+		// iterators started after the cancellation: from the object as it is, or with an explicit context
+		for n := g.r.Intn(3); n > 0; n-- {
+			add([]string{"I", "I", "I1", "I2", "I0"}[g.r.Intn(5)])
 			ni++
 		}
-		if g.r.Intn(2) == 0 {
+		for n := g.r.Intn(3); n > 0; n-- {
 			add(fmt.Sprintf("S%d.%d", g.r.Intn(ni), 1+g.r.Intn(3)))
 		}
-		for i := ni - 1; i >= 0; i-- {
+		order := g.r.Intn(2)
+		for j := 0; j < ni; j++ {
+			i := j
+			if order == 1 {
+				i = ni - 1 - j
+			}
 			add(fmt.Sprintf("D%d", i))
 		}
 		return h, fmt.Sprintf("hist/cancel/%s/v%d/n%d/spec-%s", h.kind, h.ver, h.nodes, spec)
@@ -445,6 +462,22 @@ func (g *hgen) exhaustive(emit func(hscen, string)) {
 			ver := 4 + g.r.Intn(2)
 			pf := hPrefetch[g.r.Intn(len(hPrefetch))]
 			emit(mk(ver, 1, kind, fmt.Sprintf("b1,z2,f%d,I,S0.%d,%s,I,%s", pf, k, m, orders[g.r.Intn(len(orders))])), "hist-exh/reuse")
+		}
+	}
+	// (c) cancellation: the context of a temporary copy / of the object, cancelled after k rows; then an iterator from the object
+	for _, pat := range []string{"I1,S1.%d,x1,I", "w1,I,w0,S1.%d,x1,I", "w1,I,S1.%d,x1,I", "wd1,I,w3,S1.%d,x1,I,I1", "I1,S1.%d,x2,I,I1"} {
+		for k := 0; k <= 3; k++ {
+			kind := []string{"xs", "x", "q"}[g.r.Intn(3)]
+			pre := "b1,"
+			if kind == "q" {
+				pre = ""
+			}
+			steps := pre + "z2,f0,w2,I," + fmt.Sprintf(pat, k)
+			n := strings.Count(steps, "I")
+			for i := 0; i < n; i++ {
+				steps += fmt.Sprintf(",D%d", i)
+			}
+			emit(mk(4+g.r.Intn(2), 1, kind, steps), "hist-exh/cancel")
 		}
 	}
 	paths := []struct {
@@ -493,7 +526,9 @@ func histTier(r *vh.Rng, out *vh.Out, tier string) map[string]interface{} {
 		go func(i int) {
 			defer wg.Done()
 			defer func() { <-sem }()
+			journalStart(i, jobs[i].op)
 			res[i] = execHist(jobs[i].op)
+			journalDone(i)
 		}(i)
 	}
 	wg.Wait()
